@@ -3,6 +3,7 @@ package mc
 import (
 	"fmt"
 	"runtime/debug"
+	"strings"
 	"sync"
 )
 
@@ -45,6 +46,20 @@ func (b *BFS) replay(hist []int) (res bfsRes) {
 	res.hist = hist
 	defer func() {
 		if r := recover(); r != nil {
+			// a panic inside the library outside a guarded call: a violation, not
+			// an infrastructure failure (see Explorer.runOnceIn)
+			if site := libraryFrame(); site != "" {
+				prop := b.Name
+				if i := strings.Index(prop, "/"); i > 0 {
+					prop = prop[:i]
+				}
+				res.fails = []Violation{{
+					Sig: fmt.Sprintf("%s:library-panic:%s:%s", prop, site, slugWords(fmt.Sprint(r), 2)),
+					Msg: fmt.Sprintf("the library panicked in %s while harness %s was using it after %v: %v", site, b.Name, b.RenderHist(hist), r),
+				}}
+				res.fatal = true
+				return
+			}
 			res.infra = fmt.Sprintf("harness panicked replaying %v: %v\n%s", hist, r, debug.Stack())
 		}
 	}()
